@@ -29,8 +29,11 @@ NEXT Next
 CHECK_DEADLOCK FALSE
 """
 INVS = "INVARIANT TypeOK\nINVARIANT Tiling\nINVARIANT LeafDisjoint\nINVARIANT DepthBound\nINVARIANT DeclaredAtMax\nINVARIANT SideMatchesDepth\nPROPERTY GateLatch\n"
-OWN = {"ids", "children", "centres", "inherit", "swap", "leafdisj", "tiling", "depthok", "atmax", "gate"}
-RUNCLAUSES = {"nocrash", "idle", "mono", "disjoint", "round", "samples", "ret"}
+OWNER = {"sets": "C02+C03"}
+for _c in ("ids", "children", "centres", "inherit", "swap", "leafdisj", "tiling", "depthok", "atmax", "gate"):
+    OWNER[_c] = "C18"
+for _c in ("nocrash", "idle", "mono", "disjoint", "round", "samples", "ret"):
+    OWNER[_c] = "C06"
 
 
 def _replay_refine(args):
@@ -208,7 +211,19 @@ def record_ad(cfg):
                 for nn in new:
                     r = ds.confidence_regions[nn["id"] - 1]
                     nn["region_from_parent"] = bool(np.array_equal(r.lower, pr.lower) and np.array_equal(r.upper, pr.upper))
-        T["steps"].append({"pre": pre, "post": post, "ret": ret, "exc": exc, "new": new, "refined": refined, "rows": calls["n"] - c0})
+        rel = {"a": [], "b": [], "c": []}
+        amb = {"a": [], "b": [], "c": []}
+        skipsets = True
+        if not exc and pre["S"] and cfg.get("relations", True) and len(pre["S"]) + len(pre["P"]) <= 45:
+            try:
+                rel, amb = AT.relations(alg, {"alg": "VOGP", "eps": cfg["eps"]}, dict(pre, U=[]), dict(post, U=[]))
+                skipsets = sum(len(v) for v in amb.values()) > 8
+                if skipsets:
+                    amb = {"a": [], "b": [], "c": []}
+            except Exception as e:
+                T.setdefault("rel_errors", []).append(repr(e)[:100])
+        T["steps"].append({"pre": pre, "post": post, "ret": ret, "exc": exc, "new": new, "refined": refined, "rows": calls["n"] - c0,
+                           "rel": rel, "amb": amb, "skipsets": bool(skipsets)})
         if exc:
             break
         if ret:
@@ -259,7 +274,13 @@ def ad_matrix(tier, seed):
 
 
 def run_ad(ctx, prop):
-    traces = pmap(record_ad, ad_matrix(ctx.tier, ctx.seed))
+    M = ad_matrix(ctx.tier, ctx.seed)
+    if prop in ("C02", "C03"):
+        M = [c for c in M if c["problem"] in ("p2", "p3", "branin")][:4]      # decisions against relations: the runs with real refinement
+    else:
+        for c in M:
+            c["relations"] = False
+    traces = pmap(record_ad, M)
     for T in traces:
         if T.get("build_error") and prop == "C06":
             ctx.violation("build|VOGP_AD", {"cfg": T["cfg"], "error": T["build_error"]}, "constructing VOGP_AD failed: %s" % T["build_error"])
@@ -269,7 +290,7 @@ def run_ad(ctx, prop):
     for tid, l, failing in rej:
         T = byid[tid]
         for cl in failing:
-            mine = (cl in OWN) if prop == "C18" else (cl in RUNCLAUSES)
+            mine = prop in OWNER.get(cl, "")
             if not mine:
                 foreign[cl] = foreign.get(cl, 0) + 1
                 continue
@@ -285,6 +306,7 @@ def run_ad(ctx, prop):
     ctx.extra["vogp_ad_nodes"] = [T.get("points") for T in traces]
     ctx.extra["vogp_ad_pareto_declared"] = sum(len(T["steps"][-1]["post"]["P"]) for T in traces if T["steps"])
     ctx.extra["vogp_ad_foreign_clause_rejections"] = foreign
+    ctx.extra["vogp_ad_steps_with_judged_decisions"] = sum(1 for T in traces for s in T["steps"] if not s.get("skipsets", True))
     for T in traces:
         for s in T["steps"]:
             if s["refined"] or set(s["pre"]["S"]) != set(s["post"]["S"]):
